@@ -39,6 +39,15 @@ RULE = ("exhaustive block: every link graph on 3 spots (frames 0,1,2 and 0,0,1) 
         "TRACK_ID, spot in two tracks, duplicate edge / spot id, self link, undeclared attributes, undeclared TRACK_ID, declaration without "
         "isint / dimension, unknown dimension, duplicate declaration, missing sections, bad TrackID entries, ROI count 0 / not dividing / "
         "missing on later spots / absent on earlier spots, negative id, missing coordinate, missing XML file); "
+        "chunk-boundary sweep: two documents (ROIs + extra features; no ROI, absent units) padded so that a byte inside each labelled piece "
+        "(Model, FeatureDeclarations, Spot/Edge/TrackFeatures and their end tags, first / middle / last Feature of each section, AllSpots, "
+        "SpotsInFrame, first / middle / last Spot incl. its ROI text, AllTracks, Track, Edge, FilteredTracks, TrackID, /Model, Settings, "
+        "ImageData, BasicSettings, /Settings, GUIState, DisplaySettings, /TrackMate) x 11 positions inside the piece is the first byte of a "
+        "32768-byte read of the streaming parser, padding placed as an XML comment before the piece / whitespace before the piece / Log text / "
+        "a comment before Model, boundary 1, 2 or 3 (quick: every 23rd, thorough: every 3rd combination) x flags x zarr_format; large "
+        "documents of 50 KB .. 1.6 MB (Log up to 1.5 MB, up to 400 spots of which <= 30 linked, up to 70 extra declared features per "
+        "section, ROIs up to 300 points, spot names and declaration names of ~1 KB, 33 KB attribute values in GUIState / ImageData, "
+        "comments of up to 33 KB at random pieces); "
         "non-trivial = at least 2 spots and the parser reached the spots; distinct by structural input")
 EXHAUSTIVE_BLOCKS = ["both tiers: all link graphs on 3 spots (frames 0,1,2: 8 edge sets; frames 0,0,1: 4 edge sets) x every FilteredTracks "
                      "subset + absent section x 4 discard-flag combinations",
@@ -46,13 +55,16 @@ EXHAUSTIVE_BLOCKS = ["both tiers: all link graphs on 3 spots (frames 0,1,2: 8 ed
                      "combinations (quick: every 6th)"]
 ASSUMPTIONS = [
     "abstraction boundary: lxml / ElementTree event streaming; the model takes the parsed document (attribute texts classified by "
-    "Python's own int() / float()); malformed XML is outside the claim",
+    "Python's own int() / float()); malformed XML is outside the claim.  Checked on every case: the Coq input rebuilt from an "
+    "independent full parse (lxml etree.parse) of the written file is identical to the one given to the model (else HARNESS-ERROR); the "
+    "implementation's streaming passes called directly (_get_specific_tags x2, _get_trackmate_version, _build_data) and the XML texts it "
+    "stores agree with that full parse (else an oracle failure, why=streaming)",
     "sections appear in TrackMate's order (FeatureDeclarations, AllSpots, AllTracks, FilteredTracks inside Model)",
     "coordinates (POSITION_*) are exact multiples of 2^-10 so that axis min/max is exact in the model; other float features may be any "
     "float (NaN, infinities, non-dyadic values travel as opaque tokens)",
     "integer feature values lie in the int64 range and spot ids below 2^63 (beyond, numpy's dtype inference leaves int64: outside the model)",
     "a column never mixes text with numbers (numpy would stringify the numbers: outside the model); a ROI element without text is outside the model",
-    "image folder / filename are normalised path texts (no trailing separator)",
+    "image folder / filename are normalised path texts (no trailing separator), the filename is relative (Path(folder) / filename with an absolute filename drops the folder: not modelled)",
     "a pre-existing target directory holds exactly a geff written by the library (foreign content at the target is C06's subject)",
     "validate_data(lineage) on a subset of the nodes (missing lineage ids) relies on the C14 model of validate_lineages",
 ]
@@ -133,61 +145,74 @@ def feature_xml(dc) -> str:
     return f"<Feature{xa(a)} />\n"
 
 
-def xml_of(c) -> str:
-    s = ['<?xml version="1.0" encoding="UTF-8"?>\n']
-    s.append("<TrackMate" + (xa([("version", c["version"])]) if c["version"] is not None else "") + ">\n")
+def xml_pieces(c):
+    """The document as a list of [label, text]: every piece that a chunk boundary of the streaming parser may be aimed at
+    carries a label (Model, FeatureDeclarations, feat:spot:3, spot:7, edge:0:1, Settings, ImageData, ...)."""
+    s = [[None, '<?xml version="1.0" encoding="UTF-8"?>\n']]
+    add = lambda label, text: s.append([label, text])
+    add("TrackMate", "<TrackMate" + (xa([("version", c["version"])]) if c["version"] is not None else "") + ">\n")
     if c["log"]:
-        s.append("<Log>Starting detection process.\nFound 3 spots.</Log>\n")
+        add("Log", "<Log>" + (c.get("logtext") if c.get("logtext") is not None else "Starting detection process.\nFound 3 spots.") + "</Log>\n")
     units = [(k, c[v]) for k, v in (("spatialunits", "space"), ("timeunits", "time")) if c[v] is not None]
-    s.append(f"<Model{xa(units)}>\n")
+    add("Model", f"<Model{xa(units)}>\n")
     if c["decls"] is not None:
-        s.append("<FeatureDeclarations>\n")
+        add("FeatureDeclarations", "<FeatureDeclarations>\n")
         for tag, key in (("SpotFeatures", "spot"), ("EdgeFeatures", "edge"), ("TrackFeatures", "track")):
-            s.append(f"<{tag}>\n")
-            s.extend(feature_xml(dc) for dc in c["decls"][key])
-            s.append(f"</{tag}>\n")
-        s.append("</FeatureDeclarations>\n")
+            add(tag, f"<{tag}>\n")
+            for i, dc in enumerate(c["decls"][key]):
+                add(f"feat:{key}:{i}", feature_xml(dc))
+            add("/" + tag, f"</{tag}>\n")
+        add("/FeatureDeclarations", "</FeatureDeclarations>\n")
     if c["spots"] is not None:
-        s.append(f'<AllSpots nspots="{len(c["spots"])}">\n')
+        add("AllSpots", f'<AllSpots nspots="{len(c["spots"])}">\n')
         cur = None
-        for sp in c["spots"]:
+        for i, sp in enumerate(c["spots"]):
             if sp["frame"] != cur:
                 if cur is not None:
-                    s.append("</SpotsInFrame>\n")
+                    add(None, "</SpotsInFrame>\n")
                 cur = sp["frame"]
-                s.append(f'<SpotsInFrame frame="{cur}">\n')
+                add(f"SpotsInFrame:{i}", f'<SpotsInFrame frame="{cur}">\n')
             if sp.get("text") is None:
-                s.append(f"<Spot{xa(sp['attrs'])} />\n")
+                add(f"spot:{i}", f"<Spot{xa(sp['attrs'])} />\n")
             else:
-                s.append(f"<Spot{xa(sp['attrs'])}>{sp['text']}</Spot>\n")
+                add(f"spot:{i}", f"<Spot{xa(sp['attrs'])}>{sp['text']}</Spot>\n")
         if cur is not None:
-            s.append("</SpotsInFrame>\n")
-        s.append("</AllSpots>\n")
+            add(None, "</SpotsInFrame>\n")
+        add("/AllSpots", "</AllSpots>\n")
     if c["tracks"] is not None:
-        s.append("<AllTracks>\n")
-        for tr in c["tracks"]:
-            s.append(f"<Track{xa(tr['attrs'])}>\n")
-            s.extend(f"<Edge{xa(e)} />\n" for e in tr["edges"])
-            s.append("</Track>\n")
-        s.append("</AllTracks>\n")
+        add("AllTracks", "<AllTracks>\n")
+        for i, tr in enumerate(c["tracks"]):
+            add(f"track:{i}", f"<Track{xa(tr['attrs'])}>\n")
+            for j, e in enumerate(tr["edges"]):
+                add(f"edge:{i}:{j}", f"<Edge{xa(e)} />\n")
+            add(f"/track:{i}", "</Track>\n")
+        add("/AllTracks", "</AllTracks>\n")
     if c["filtered"] is not None:
-        s.append("<FilteredTracks>\n")
-        for t in c["filtered"]:
-            s.append("<TrackID />\n" if t is None else f"<TrackID{xa([('TRACK_ID', t)])} />\n")
-        s.append("</FilteredTracks>\n")
-    s.append("</Model>\n")
+        add("FilteredTracks", "<FilteredTracks>\n")
+        for i, t in enumerate(c["filtered"]):
+            add(f"trackid:{i}", "<TrackID />\n" if t is None else f"<TrackID{xa([('TRACK_ID', t)])} />\n")
+        add("/FilteredTracks", "</FilteredTracks>\n")
+    add("/Model", "</Model>\n")
     if c["settings"] is not None:
-        s.append("<Settings>\n")
+        add("Settings", "<Settings>\n")
         im = c["settings"].get("image")
         if im is not None:
-            s.append(f"<ImageData{xa([('filename', im['filename']), ('folder', im['folder']), ('width', '128')])} />\n")
-        s.append('<BasicSettings xstart="0" xend="127" />\n</Settings>\n')
+            add("ImageData", f"<ImageData{xa([('filename', im['filename']), ('folder', im['folder']), ('width', c.get('imgwidth', '128'))])} />\n")
+        add("BasicSettings", '<BasicSettings xstart="0" xend="127" />\n')
+        add("/Settings", "</Settings>\n")
     if c["gui"]:
-        s.append('<GUIState state="ConfigureViews" />\n')
+        add("GUIState", f'<GUIState{xa([("state", c.get("guistate", "ConfigureViews"))])} />\n')
     if c["disp"]:
-        s.append("<DisplaySettings>{\n  \"name\": \"CurrentDisplaySettings\"\n}</DisplaySettings>\n")
-    s.append("</TrackMate>\n")
-    return "".join(s)
+        add("DisplaySettings", "<DisplaySettings>{\n  \"name\": \"CurrentDisplaySettings\"\n}</DisplaySettings>\n")
+    add("/TrackMate", "</TrackMate>\n")
+    return s
+
+
+def xml_of(c) -> str:
+    """`pads` (label -> text) are inserted just before the labelled piece: XML comments / whitespace, which the parsed
+    document does not contain (a comment is no element, whitespace between elements is ignored by the converter)."""
+    pads = c.get("pads") or {}
+    return "".join((pads.get(label, "") if label is not None else "") + text for label, text in xml_pieces(c))
 
 
 # --------------------------------------------------------------------------
@@ -674,9 +699,204 @@ def malform(rng, c, k=None):
     return c
 
 
+# --------------------------------------------------------------------------
+# large documents, and section boundaries swept over the chunk boundaries of the streaming parser
+# --------------------------------------------------------------------------
+CHUNK = 32768          # lxml's iterparse hands the file to libxml2 in reads of this many bytes
+
+
+def filler(rng, n: int) -> str:
+    """n bytes of XML-safe text (no markup, no entity, no '--', so it can sit in a comment, an attribute or element text)."""
+    words = ["Starting", "detection", "process.", "Found", "spots", "in", "frame", "LoG", "detector", "threshold", "0.75", "done",
+             "Tracking", "LAP", "linking", "max", "distance", "15.0", "gap", "closing", "Computing", "features", "\n", "\n"]
+    out, size = [], 0
+    while size < n:
+        w = rng.choice(words) if rng.random() < 0.9 else str(rng.randint(0, 10 ** 6))
+        out.append(w)
+        size += len(w) + 1
+    return " ".join(out)[:n].replace("\n ", "\n").ljust(n, ".")
+
+
+def large_doc(rng, n, n_feat=0, roi_pts=0, n_tracks=4, long_names=0, origin="large", opt=None, linked=30):
+    """A well-formed document with n spots (sparse ids), n_feat additional declared features per section beside the usual
+    ones, ROIs of up to roi_pts points, long attribute values (names of long_names bytes on three spots, long declaration names).
+    At most `linked` spots take part in tracks (the lineage-validator model of C14 is cubic in the linked nodes; the other
+    spots are lone spots, which the discard option removes)."""
+    c = base_case(origin=origin)
+    opt = len(SPOT_OPT) if opt is None else opt
+    sd = copy.deepcopy(rng.sample(SPOT_OPT, opt)) + [D(f"SF_{i:03d}", i % 3 == 0, DIMS[i % len(DIMS)], f"spot feature {i} " + "n" * (long_names if i % 7 == 0 else 0))
+                                    for i in range(n_feat)]
+    ed = copy.deepcopy(EDGE_OPT[:max(1, opt // 3)]) + [D(f"EF_{i:03d}", i % 2 == 0, DIMS[(i + 3) % len(DIMS)]) for i in range(n_feat // 2)]
+    td = copy.deepcopy(TRACK_OPT) + [D(f"TF_{i:03d}", i % 2 == 1, DIMS[(i + 5) % len(DIMS)]) for i in range(n_feat // 3)]
+    c["decls"] = {"spot": copy.deepcopy(SPOT_CORE) + sd, "edge": copy.deepcopy(EDGE_CORE) + ed, "track": copy.deepcopy(TRACK_CORE) + td}
+    if rng.random() < 0.5:
+        rng.shuffle(c["decls"]["spot"])
+    T = max(2, min(n, rng.randint(3, 40)))
+    ids = rng.sample(range(0, 20 * n + 5), n)
+    if n > 3 and rng.random() < 0.5:
+        ids[rng.randrange(n)] = 2 ** 53 + 1
+        ids[rng.randrange(n)] = 2 ** 63 - 1
+        ids = list(dict.fromkeys(ids))
+        n = len(ids)
+    frames = sorted(rng.randrange(T) for _ in range(n))
+    roi_mode = "none" if roi_pts == 0 else rng.choice(["equal", "differ"])
+    carried = [d for d in sd if rng.random() < 0.6] if n_feat > 12 else sd
+    spots = []
+    for sid, fr in zip(ids, frames):
+        extra = [(d["feature"], rand_value(rng, d)) for d in carried if rng.random() < 0.5]
+        roi = None
+        if roi_mode == "equal":
+            roi = rand_roi(rng, roi_pts)
+        elif roi_mode == "differ":
+            roi = rand_roi(rng, rng.randint(1, roi_pts))
+        sp = mk_spot(sid, fr, x=rng.randint(-2048, 4096) / rng.choice([1, 4, 1024]), extra=extra, name=True, roi=roi)
+        if long_names and len(spots) % 3 == 1:
+            sp["attrs"][1][1] = f"ID{sid} " + filler(rng, rng.randint(long_names // 2, long_names)).replace("\n", " ")
+        spots.append(sp)
+    c["spots"] = spots
+    tids = rng.sample(TRACK_POOL + list(range(20, 60)), min(n_tracks, max(0, n // 2)))
+    members = {t: [] for t in tids}
+    for i in sorted(rng.sample(range(n), min(n, linked))):
+        if tids and rng.random() < 0.9:
+            members[rng.choice(tids)].append(i)
+    tracks = []
+    for idx, t in enumerate(tids):
+        edges, placed = [], []
+        for i in members[t]:
+            earlier = [j for j in placed[-12:] if frames[j] < frames[i]]
+            if not placed:
+                placed.append(i)
+            elif earlier:
+                par = rng.choice(earlier)
+                edges.append((par, i))
+                if rng.random() < 0.1:
+                    other = [j for j in earlier if j != par]
+                    if other:
+                        edges.append((rng.choice(other), i))
+                placed.append(i)
+        if not edges:
+            continue
+        rng.shuffle(edges)
+        elist = [mk_edge(ids[a], ids[b], [(d["feature"], rand_value(rng, d)) for d in ed if rng.random() < 0.3]) for a, b in edges]
+        tracks.append(mk_track(t, elist, idx, [(d["feature"], rand_value(rng, d)) for d in td if rng.random() < 0.5]))
+    c["tracks"] = tracks
+    present = [int(dict(map(tuple, tr["attrs"]))["TRACK_ID"]) for tr in tracks]
+    c["filtered"] = None if rng.random() < 0.15 else [str(t) for t in present if rng.random() < 0.6]
+    return c
+
+
+def piece_offset(c, label) -> tuple[int, int]:
+    """(byte offset of the labelled piece in xml_of(c), its byte length)"""
+    pads = c.get("pads") or {}
+    off = 0
+    for lab, text in xml_pieces(c):
+        if lab is not None:
+            off += len(pads.get(lab, "").encode("utf-8"))
+        if lab == label:
+            return off, len(text.encode("utf-8"))
+        off += len(text.encode("utf-8"))
+    raise HarnessError(f"no piece {label!r}")
+
+
+def aim(c, label, delta, kind, more=0, rng=None):
+    """Pad the document so that the byte `delta` bytes into the piece `label` is the first byte of a chunk: `kind` says where the
+    padding goes -- 'comment' / 'space' right before the piece, 'log' into the text of <Log>, 'early' a comment before <Model>."""
+    c = copy.deepcopy(c)
+    c.setdefault("pads", {})
+    rng = rng or random.Random(0)
+    if kind == "log":
+        c["log"] = True
+        c["logtext"] = ""
+    off, size = piece_offset(c, label)
+    need = (-(off + delta)) % CHUNK + more * CHUNK
+    if kind in ("comment", "early") and need < 7:
+        need += CHUNK
+    if kind == "log":
+        c["logtext"] = filler(rng, need)
+    elif kind == "space":
+        c["pads"][label] = c["pads"].get(label, "") + "".join(rng.choice(" \n\t") for _ in range(need))
+    else:
+        site = label if kind == "comment" else "Model"
+        c["pads"][site] = c["pads"].get(site, "") + "<!--" + filler(rng, need - 7) + "-->"
+    off, _ = piece_offset(c, label)
+    if (off + delta) % CHUNK:
+        raise HarnessError(f"aim: {label}+{delta} landed at {off + delta}")
+    c["aimed"] = [label, delta, kind, (off + delta) // CHUNK]
+    return c
+
+
+def sweep_labels(c):
+    labs = [lab for lab, _ in xml_pieces(c) if lab is not None and lab not in ("TrackMate", "Log")]
+    keep = []
+    for lab in labs:
+        head = lab.split(":")[0]
+        if head in ("feat", "spot", "edge", "trackid", "track", "/track", "SpotsInFrame"):
+            # of the repeated pieces: the first, one in the middle, the last of each kind
+            same = [x for x in labs if x.split(":")[0] == head and (head != "feat" or x.split(":")[1] == lab.split(":")[1])]
+            if lab not in (same[0], same[len(same) // 2], same[-1]):
+                continue
+        keep.append(lab)
+    return keep
+
+
+def sweep_cases(rng, tier):
+    """Every interesting piece of a document x positions inside it x where the padding sits x which chunk boundary."""
+    r0 = random.Random(1632768)
+    bases = []
+    b = large_doc(r0, 9, n_feat=2, roi_pts=5, n_tracks=2, origin="sweep", opt=2)
+    b["filtered"] = [dict(map(tuple, tr["attrs"]))["TRACK_ID"] for tr in b["tracks"]][:1] + ["99"]
+    bases.append(b)
+    b = large_doc(r0, 6, n_feat=0, roi_pts=0, n_tracks=2, origin="sweep", opt=1)
+    b.update(space=None, gui=True, disp=True)
+    bases.append(b)
+    count = 0
+    for bi, base in enumerate(bases):
+        for lab in sweep_labels(base):
+            _, size = piece_offset(base, lab)
+            deltas = sorted({0, 1, 2, 5, size // 3, size // 2, 2 * size // 3, size - 3, size - 2, size - 1, size})
+            for delta in deltas:
+                for kind in ("comment", "space", "log", "early"):
+                    count += 1
+                    if count % (23 if tier == "quick" else 4):
+                        continue
+                    if bi == 1 and count % 3:
+                        continue
+                    c = aim(base, lab, delta, kind, more=(count // 4) % 3 if count % 5 == 0 else 0, rng=r0)
+                    c.update(ds=bool(count & 1), dt=bool(count & 2), fmt=2 + (count // 4) % 2, origin=f"sweep:{lab}+{delta}:{kind}")
+                    yield c
+
+
+def large_cases(rng, tier):
+    """Documents of 50 KB .. 2 MB: long Log, many spots, many features, long ROI texts, long attribute values, comments."""
+    r0 = random.Random(1600000)
+    shapes = [dict(n=40, n_feat=40, roi_pts=0, log=60_000, opt=5), dict(n=120, n_feat=3, roi_pts=40, log=0, opt=3),
+              dict(n=30, n_feat=3, roi_pts=300, log=200, opt=3), dict(n=25, n_feat=2, roi_pts=0, log=1_500_000, opt=2),
+              dict(n=60, n_feat=6, roi_pts=6, log=40_000, long_names=900, opt=2), dict(n=400, n_feat=2, roi_pts=8, log=0, opt=2),
+              dict(n=12, n_feat=70, roi_pts=0, log=0, long_names=1200, opt=4), dict(n=80, n_feat=4, roi_pts=0, log=300_000, comments=40, opt=4)]
+    reps = 1 if tier == "quick" else 4
+    for rep in range(reps):
+        for k, sh in enumerate(shapes):
+            c = large_doc(r0, sh["n"], n_feat=sh["n_feat"], roi_pts=sh["roi_pts"], n_tracks=r0.randint(1, 6), long_names=sh.get("long_names", 0),
+                          origin=f"large:{k}", opt=sh["opt"])
+            c = decorate(r0, c)
+            c.update(via="api", pre=None, overwrite=False)
+            if sh["log"]:
+                c["log"] = True
+                c["logtext"] = filler(r0, sh["log"] + r0.randint(0, CHUNK))
+            c["guistate"] = filler(r0, r0.choice([10, 5000, 40_000])).replace("\n", " ")
+            c["imgwidth"] = "128" + "0" * r0.choice([0, 0, 33_000])
+            labs = [lab for lab, _ in xml_pieces(c) if lab is not None and lab not in ("TrackMate", "Log")]
+            c["pads"] = {}
+            for lab in r0.sample(labs, min(len(labs), sh.get("comments", 3))):
+                c["pads"][lab] = "<!--" + filler(r0, r0.choice([20, 3000, 33_000])) + "-->" + "\n" * r0.randint(0, 3)
+            yield c
+
+
 def generate(rng: random.Random, tier: str):
     yield from exhaustive_block(tier)
     yield from fixed_cases()
+    yield from sweep_cases(rng, tier)
+    yield from large_cases(rng, tier)
     for _ in range(260 if tier == "quick" else 2600):
         yield decorate(rng, rand_doc(rng))
     r0 = random.Random(16)
@@ -756,9 +976,8 @@ def abstract_md(md_json: dict):
          "related": [[str(r.get("type")), str(r.get("path"))] for r in (md_json.get("related_objects") or [])],
          "version": str(other.get("trackmate_version")),
          "lineage_md": [[k, v.get("dtype") == "int", str(v.get("name")), str(v.get("unit"))] for k, v in (other.get("lineage_props_metadata") or {}).items()],
-         "tags": [k for k in other if k not in ("trackmate_version", "lineage_props_metadata")],
-         "xml_ok": {k: isinstance(other[k], str) and other[k].lstrip().startswith("<") for k in other
-                    if k not in ("trackmate_version", "lineage_props_metadata")}}
+         "tags": [k for k in other if k not in ("trackmate_version", "lineage_props_metadata")]}
+    # (the XML texts stored under these tags are compared with the document by extras_check, see run_impl)
     return md, x
 
 
@@ -790,6 +1009,191 @@ def prop_json(p):
             "missing": None if p["missing"] is None else [bool(b) for b in p["missing"].tolist()]}
 
 
+# --------------------------------------------------------------------------
+# the abstraction boundary, checked: independent full parse of the written file / the implementation's streaming helpers
+# --------------------------------------------------------------------------
+def case_from_xml(data: bytes) -> dict:
+    """What an independent FULL parse (lxml etree.parse: no events, no chunks) of the file says, in the shape of the
+    generator's document description (only the fields that coq_input reads)."""
+    import io
+
+    from lxml import etree as LET
+
+    root = LET.parse(io.BytesIO(data)).getroot()
+    elems = lambda el: [ch for ch in el if isinstance(ch.tag, str)]
+    alist = lambda el: [[k, v] for k, v in el.attrib.items()]
+    out = {"exists": True, "version": root.attrib.get("version"), "log": root.find("Log") is not None,
+           "gui": root.find("GUIState") is not None, "disp": root.find("DisplaySettings") is not None}
+    model = root.find("Model")
+    out["space"], out["time"] = model.attrib.get("spatialunits"), model.attrib.get("timeunits")
+    fd = model.find("FeatureDeclarations")
+    if fd is None:
+        out["decls"] = None
+    else:
+        out["decls"] = {}
+        for tag, key in (("SpotFeatures", "spot"), ("EdgeFeatures", "edge"), ("TrackFeatures", "track")):
+            out["decls"][key] = [{"feature": f.attrib["feature"], "name": f.attrib.get("name"), "isint": f.attrib.get("isint"),
+                                  "dimension": f.attrib.get("dimension")} for f in fd.find(tag).findall("Feature")]
+    sec = model.find("AllSpots")
+    out["spots"] = None if sec is None else [{"attrs": alist(sp), **({} if sp.text is None else {"text": sp.text})}
+                                             for fr in elems(sec) for sp in elems(fr)]
+    sec = model.find("AllTracks")
+    out["tracks"] = None if sec is None else [{"attrs": alist(tr), "edges": [alist(e) for e in elems(tr)]} for tr in elems(sec)]
+    sec = model.find("FilteredTracks")
+    out["filtered"] = None if sec is None else [t.attrib.get("TRACK_ID") for t in elems(sec)]
+    st = root.find("Settings")
+    if st is None:
+        out["settings"] = None
+    else:
+        im = st.find("ImageData")
+        out["settings"] = {"image": None if im is None else {"filename": im.attrib["filename"], "folder": im.attrib["folder"]}}
+    return out
+
+
+def boundary_check(c, data: bytes, pre_coq: str = "None"):
+    """The model's input is the generator's description `c`; the file is what the implementation reads.  The Coq term built
+    from an independent full parse of the file must be the Coq term built from `c` (else the harness is wrong)."""
+    full = case_from_xml(data)
+    for k in ("ds", "dt", "overwrite"):
+        full[k] = c[k]
+    a, b = coq_input(c, pre_coq), coq_input(full, pre_coq)
+    if a != b:
+        i = next((i for i in range(min(len(a), len(b))) if a[i] != b[i]), min(len(a), len(b)))
+        raise HarnessError(f"the document description differs from a full parse of the XML written for it ({c.get('origin')}): "
+                           f"...{a[max(0, i - 60):i + 60]!r} vs ...{b[max(0, i - 60):i + 60]!r}")
+
+
+def _same_number(v, text) -> bool:
+    if isinstance(v, bool):
+        return False
+    if isinstance(v, int):
+        try:
+            return v == int(text)
+        except ValueError:
+            return False
+    if isinstance(v, float):
+        try:
+            return feq(v, float(text))
+        except ValueError:
+            return False
+    return isinstance(v, str) and v == text
+
+
+def stream_check(c, xml_path, data: bytes) -> list[str]:
+    """The implementation's own extraction passes (called directly, file read in lxml's chunks) against the full parse:
+    the copied FeatureDeclarations / Log / Settings / GUIState / DisplaySettings elements, the version, and -- for well-formed
+    documents -- the units and the graph of _build_data (every attribute of every spot and link, the ROI points, the track
+    stamps).  Returns the disagreements."""
+    import io
+    import warnings
+
+    from lxml import etree as LET
+
+    from geff.convert import _trackmate_xml as tmx
+
+    bad = []
+    root = LET.parse(io.BytesIO(data)).getroot()
+    ser = lambda el: LET.tostring(el, with_tail=False)
+    with warnings.catch_warnings():
+        warnings.simplefilter("ignore")
+        want = {}
+        for el in root.iter("FeatureDeclarations", "Log", "Settings", "GUIState", "DisplaySettings"):
+            want.setdefault(el.tag, el)              # first in document order, as the streaming pass takes them
+        got = tmx._get_specific_tags(xml_path, ["FeatureDeclarations"], 1)
+        got.update(tmx._get_specific_tags(xml_path, ["Log", "Settings", "GUIState", "DisplaySettings"], 1))
+        if sorted(got) != sorted(want):
+            bad.append(f"_get_specific_tags found {sorted(got)}, the document holds {sorted(want)}")
+        for k in got:
+            if k in want and ser(got[k]) != ser(want[k]):
+                g, w = ser(got[k]), ser(want[k])
+                bad.append(f"_get_specific_tags: element {k} copied with {len(list(got[k].iter()))} descendants / {len(g)} bytes, "
+                           f"the document's has {len(list(want[k].iter()))} / {len(w)} bytes")
+        v = tmx._get_trackmate_version(xml_path)
+        if v != (root.attrib.get("version") or "unknown"):
+            bad.append(f"_get_trackmate_version = {v!r}, document {root.attrib.get('version')!r}")
+        if c["cls"] != "wf":
+            return bad
+        try:
+            graph, units, seg = tmx._build_data(xml_path)
+        except Exception as e:
+            return bad + [f"_build_data raised {type(e).__name__}: {e}"[:200]]
+    model = root.find("Model")
+    for key, attr, dflt in (("spatialunits", "spatialunits", "pixel"), ("timeunits", "timeunits", "frame")):
+        if units.get(key) != model.attrib.get(attr, dflt):
+            bad.append(f"_build_data units[{key}] = {units.get(key)!r}, Model says {model.attrib.get(attr)!r}")
+    spots = {int(sp.attrib["ID"]): sp for sp in model.find("AllSpots").iter("Spot")}
+    links, track_of = {}, {}
+    for tr in model.find("AllTracks").iter("Track"):
+        for e in tr.iter("Edge"):
+            s, t = int(e.attrib["SPOT_SOURCE_ID"]), int(e.attrib["SPOT_TARGET_ID"])
+            links[(s, t)] = e
+            track_of[s] = track_of[t] = int(tr.attrib["TRACK_ID"])
+    if sorted(graph.nodes) != sorted(spots):
+        bad.append(f"_build_data nodes {sorted(graph.nodes)[:8]}.. ({graph.number_of_nodes()}), document spots {sorted(spots)[:8]}.. ({len(spots)})")
+    if sorted(graph.edges) != sorted(links):
+        bad.append(f"_build_data edges {sorted(graph.edges)[:8]}.. ({graph.number_of_edges()}), document links {sorted(links)[:8]}.. ({len(links)})")
+    any_roi = any("ROI_N_POINTS" in sp.attrib for sp in spots.values())
+    if bool(seg) != any_roi:
+        bad.append(f"_build_data segmentation flag {seg}, document has ROIs: {any_roi}")
+    for sid, sp in spots.items():
+        if sid not in graph.nodes or len(bad) > 5:
+            continue
+        nd = graph.nodes[sid]
+        keys = set(sp.attrib) | ({"TRACK_ID"} if sid in track_of else set()) | ({"ROI_coords"} if "ROI_N_POINTS" in sp.attrib else set())
+        if set(nd) != keys:
+            bad.append(f"_build_data node {sid} has keys {sorted(nd)}, spot attributes {sorted(keys)}")
+            continue
+        for k, text in sp.attrib.items():
+            if not _same_number(nd[k], text):
+                bad.append(f"_build_data node {sid}: {k} = {nd[k]!r}, document text {text[:40]!r}")
+        if sid in track_of and nd["TRACK_ID"] != track_of[sid]:
+            bad.append(f"_build_data node {sid}: TRACK_ID {nd['TRACK_ID']}, document track {track_of[sid]}")
+        if "ROI_N_POINTS" in sp.attrib:
+            vals = [float(x) for x in (sp.text or "").split()]
+            flat = [x for pt in (nd["ROI_coords"] or []) for x in pt]
+            if len(flat) != len(vals) or not all(feq(a, b) for a, b in zip(flat, vals)):
+                bad.append(f"_build_data node {sid}: {len(flat)} ROI coordinates, document text holds {len(vals)}")
+    for (s, t), e in links.items():
+        if (s, t) not in graph.edges or len(bad) > 5:
+            continue
+        ed = graph.edges[s, t]
+        if set(ed) != set(e.attrib):
+            bad.append(f"_build_data edge {(s, t)} has keys {sorted(ed)}, link attributes {sorted(e.attrib)}")
+            continue
+        for k, text in e.attrib.items():
+            if not _same_number(ed[k], text):
+                bad.append(f"_build_data edge {(s, t)}: {k} = {ed[k]!r}, document text {text[:40]!r}")
+    return bad
+
+
+def extras_check(other: dict, data: bytes) -> list[str]:
+    """The XML texts stored under other_trackmate_metadata against the full parse: each must be the serialisation of the
+    document's element (same tag, attributes, text, children)."""
+    import io
+
+    from lxml import etree as LET
+
+    root = LET.parse(io.BytesIO(data)).getroot()
+    bad = []
+    names = {"log": "Log", "settings": "Settings", "gui_state": "GUIState", "display_settings": "DisplaySettings"}
+    for key, text in other.items():
+        if key in ("trackmate_version", "lineage_props_metadata"):
+            continue
+        if key not in names or not isinstance(text, str):
+            bad.append(f"unexpected entry {key!r} in other_trackmate_metadata")
+            continue
+        want = root.find(names[key])
+        try:
+            got = LET.fromstring(text.encode("utf-8"))
+        except LET.XMLSyntaxError as e:
+            bad.append(f"other_trackmate_metadata[{key!r}] is not XML: {e}"[:160])
+            continue
+        if want is None or LET.tostring(got, with_tail=False) != LET.tostring(want, with_tail=False):
+            bad.append(f"other_trackmate_metadata[{key!r}] ({len(text)} chars, {len(list(got.iter()))} elements) is not the document's "
+                       f"{names[key]} element ({'absent' if want is None else str(len(list(want.iter()))) + ' elements'})")
+    return bad
+
+
 def run_impl(c):
     from geff.core_io import read_to_memory
     from geff.validate.data import ValidationConfig, validate_data
@@ -802,8 +1206,13 @@ def run_impl(c):
     try:
         xml_path = root / "in" / "tracks.xml"
         xml_path.parent.mkdir()
+        data = b""
         if c["exists"]:
-            xml_path.write_text(xml_of(c), encoding="utf-8")
+            data = xml_of(c).encode("utf-8")
+            xml_path.write_bytes(data)
+            boundary_check(c, data)
+            obs["xml_bytes"] = len(data)
+            obs["stream"] = stream_check(c, xml_path, data)
         geff_path = root / "out" / "tracks.geff"
         geff_path.parent.mkdir()
         if c["pre"] is not None:
@@ -886,6 +1295,7 @@ def run_impl(c):
         obs["val"] = val
         md_json = g["metadata"].model_dump(mode="json")
         md_abs, x = abstract_md(md_json)
+        obs["stream"] = obs.get("stream", []) + extras_check((md_json.get("extra") or {}).get("other_trackmate_metadata") or {}, data)
         obs["back"] = ["ok"]
         obs["extra"] = x
         obs["graph"] = {
@@ -929,7 +1339,23 @@ def text_payloads(text):
     return [enc_float(float(v)) for v in text.split()]
 
 
-def coq_input(c, pre_coq: str) -> str | None:
+# malformations after which the document violates wf_tm (or, for the two track ones, tracks_connected) as props/C16.v words it;
+# "undeclared_attr" is the only one that leaves the document well-formed in that sense (no claim is made for it)
+NOT_WF = {"int_text", "no_id", "unknown_spot_edge", "edge_no_target", "edge_no_source", "track_no_id", "two_tracks", "dup_edge", "dup_spot",
+          "self_link", "undeclared_track_id", "decl_no_isint", "decl_no_isint_unused", "decl_no_dim", "decl_bad_dim", "dup_decl", "no_decls",
+          "no_spots_section", "no_tracks_section", "trackid_no_attr", "trackid_text", "roi_zero", "roi_ragged", "roi_later_missing",
+          "roi_earlier_missing", "roi_no_position_x", "negative_id", "no_position_z", "no_position_z_at_all", "no_xml", "float_track_id",
+          "clash_decl", "unconnected_track", "same_track_id_twice", "edge_float_ids", "empty_feature_name"}
+
+
+def intent_of(c):
+    """What the generator meant: True = the premises of the theorems hold (well-formed, tracks connected), False = they do not."""
+    if c["cls"] == "wf":
+        return True
+    return False if c["cls"].split(":", 1)[1] in NOT_WF else None
+
+
+def coq_input(c, pre_coq: str, intent="-") -> str | None:
     if c["decls"] is None:
         decls = "None"
     else:
@@ -953,7 +1379,8 @@ def coq_input(c, pre_coq: str) -> str | None:
         img = "(Some " + copt(im, lambda i: f"({cstr(i['filename'])}, {cstr(i['folder'])})") + ")"
     d = (f"(mktm {cbool(c['exists'])} {copt(c['version'], cstr)} {copt(c['space'], cstr)} {copt(c['time'], cstr)} {decls} {spots} "
          f"{tracks} {flt} {img} {cbool(c['log'])} {cbool(c['gui'])} {cbool(c['disp'])})")
-    return f"(IConv {d} {cbool(c['ds'])} {cbool(c['dt'])} {cbool(c['overwrite'])} {pre_coq})"
+    head = "IConv" if intent == "-" else f"IConvW {copt(intent, cbool)}"
+    return f"({head} {d} {cbool(c['ds'])} {cbool(c['dt'])} {cbool(c['overwrite'])} {pre_coq})"
 
 
 def in_model(c) -> bool:
@@ -969,7 +1396,7 @@ def coq_case(c, o):
     if "pre_coq" not in o or not in_model(c):
         return None
     try:
-        inp = coq_input(c, o["pre_coq"])
+        inp = coq_input(c, o["pre_coq"], intent_of(c))
     except HarnessError:
         return None
     if o["res"][0] != "ok":
@@ -1050,9 +1477,13 @@ def strip(o):
 
 
 def oracle(c, o):
+    fail = lambda what, **tags: Failure(c, strip(o), what, tags)
+    if o.get("stream"):
+        # the converter's extraction passes disagree with a full parse of the same file (whatever the document says)
+        return fail("streaming extraction differs from the document: " + "; ".join(o["stream"][:3]), why="streaming",
+                    exc=o["res"][1] if o["res"][0] != "ok" else None)
     if not well_formed(c):
         return None                       # the property speaks about well-formed TrackMate documents only
-    fail = lambda what, **tags: Failure(c, strip(o), what, tags)
     occupied = c["pre"] is not None and not c["overwrite"]
     if o["res"][0] != "ok":
         if occupied and o["res"][1] == "FileExistsError":
@@ -1172,7 +1603,12 @@ def describe(c, o):
 def shrink(c):
     """Greedy: drop a spot (with its links), a track, an optional attribute, the call decorations, while the oracle still fails."""
 
+    budget = [120]                      # conversions spent on shrinking (a large document has hundreds of candidates per round)
+
     def fails(x):
+        if budget[0] <= 0:
+            return False
+        budget[0] -= 1
         try:
             return oracle(x, run_impl(x)) is not None
         except Exception:
